@@ -605,6 +605,9 @@ class Evaluator(object):
             return list(it.a)
         if it.op == "call" and tm.callee_name(it.a[0]) == ".items" and len(it.a[1]) == 1 and it.a[1][0].op == "dict" and 1 <= len(it.a[1][0].a) <= 16:
             return [tm.tup(list(kv.a)) for kv in it.a[1][0].a]
+        if it.op == "call" and tm.callee_name(it.a[0]) in (".values", ".keys") and len(it.a[1]) == 1 and it.a[1][0].op == "dict" and 1 <= len(it.a[1][0].a) <= 16 and all(kv.op == "tuple" and len(kv.a) == 2 and kv.a[0].op != "star" for kv in it.a[1][0].a):
+            k_ = 1 if tm.callee_name(it.a[0]) == ".values" else 0
+            return [kv.a[k_] for kv in it.a[1][0].a]  # the values / keys of a dict display, in insertion order
         if it.op == "call" and tm.callee_name(it.a[0]) == "builtins.zip" and len(it.a[1]) >= 2 and all(z.op in ("tuple", "list") for z in it.a[1]) and 1 <= min(len(z.a) for z in it.a[1]) <= 16:
             n = min(len(z.a) for z in it.a[1])
             return [tm.tup([z.a[i] for z in it.a[1]]) for i in range(n)]
@@ -1489,8 +1492,42 @@ class Evaluator(object):
             return new
         return node
 
+    def _split_conditional_kwargs(self, node, env):
+        """f(.., **(D1 if c else D2)) with two dict displays of literal keys (one may be empty): the two calls
+        f(.., k1=v1, ..) / f(.., <D2's keywords>) under c / not c.  Returns the term, or None when the call is not of
+        that shape."""
+        stars = [k for k in node.keywords if k.arg is None]
+        if len(stars) != 1:
+            return None
+        v = stars[0].value
+        t = self.ev(v, env) if isinstance(v, (ast.Name, ast.IfExp)) else None
+        if t is None or t.op != "ite":
+            return None
+        alts = (t.a[1], t.a[2])
+        if not all(z.op == "dict" and all(kv.op == "tuple" and len(kv.a) == 2 and kv.a[0].op == "const" and isinstance(kv.a[0].a[0], str) and kv.a[0].a[0].isidentifier() for kv in z.a) for z in alts):
+            return None
+        self._n_kwsplit = getattr(self, "_n_kwsplit", 0) + 1
+        out = []
+        saved = self.pc
+        for pol, z in ((True, alts[0]), (False, alts[1])):
+            kws = [k for k in node.keywords if k.arg is not None]
+            env2 = dict(env)
+            for j, kv in enumerate(z.a):
+                nm = "@kwsplit%d_%d_%d" % (self._n_kwsplit, int(pol), j)
+                env2[nm] = kv.a[1]
+                kws.append(ast.copy_location(ast.keyword(arg=kv.a[0].a[0], value=ast.copy_location(ast.Name(id=nm, ctx=ast.Load()), node)), node))
+            call = ast.copy_location(ast.Call(func=node.func, args=node.args, keywords=kws), node)
+            self.pc = saved + (("if", t.a[0], pol, None),)
+            out.append(self.ev_Call(call, env2))
+        self.pc = saved
+        return tm.ite(t.a[0], out[0], out[1])
+
     def ev_Call(self, node, env):
         node = self._debound(node, env)
+        if any(k.arg is None for k in node.keywords):
+            sp = self._split_conditional_kwargs(node, env)
+            if sp is not None:
+                return sp
         fn = self.ev(node.func, env) if not isinstance(node.func, ast.Attribute) else None
         base = None
         if fn is None:
@@ -1942,6 +1979,20 @@ class Evaluator(object):
         if fn.op == "call" and tm.callee_name(fn.a[0]) == "functools.partial" and fn.a[1] and not any(z.op == "star" for z in fn.a[1]):
             later = {k_ for k_, _ in kw}
             return self.apply(fn.a[1][0], tuple(fn.a[1][1:]) + tuple(args), tuple((k_, v_) for k_, v_ in fn.a[2] if k_ not in later) + tuple(kw))
+        if fn.op == "call" and tm.callee_name(fn.a[0]) == "operator.itemgetter" and fn.a[1] and not fn.a[2] and len(args) == 1 and not kw:
+            # operator.itemgetter(k1, .., kn)(X) is (X[k1], .., X[kn]) - X[k1] alone for a single key
+            keys = []
+            for k_ in fn.a[1]:
+                if k_.op == "star" and k_.a[0].op in ("tuple", "list"):
+                    keys.extend(k_.a[0].a)
+                elif k_.op == "star":
+                    keys = None
+                    break
+                else:
+                    keys.append(k_)
+            if keys:
+                items = [tm.sub(args[0], k_) for k_ in keys]
+                return items[0] if len(items) == 1 else tm.tup(items)
         if fn.op == "lambda" and not kw and len(args) == len(fn.a[0]) and not any(a.op == "star" for a in args):
             # (lambda p: E)(a) is E with a for p
             bind = dict(zip(fn.a[0], args))
